@@ -105,6 +105,7 @@ func runStore(o *Out, r *rand.Rand, thorough bool, args []string) {
 		storeHistory(o, r, h, nPuts, thorough)
 	}
 	bigHistory(o, r)
+	tinyHistory(o, r)
 	twoStores(o, r)
 	aliasHistory(o, r, thorough)
 	concSchedules(o, r)
@@ -292,6 +293,69 @@ func bigHistory(o *Out, r *rand.Rand) {
 	}
 }
 
+// tinyHistory: a store whose farthest items are tiny (0..8 bytes of value, 32..40 bytes each with the key), so that one
+// pruning pass has to delete well over a thousand of them to free 5 % of the capacity; the near items are ordinary.
+func tinyHistory(o *Out, r *rand.Rand) {
+	const capMB = 1
+	var node enode.ID
+	r.Read(node[:])
+	db, err := pebble.Open("", &pebble.Options{FS: vfs.NewMem()})
+	if err != nil {
+		panic(err)
+	}
+	cfg := storage.PortalStorageConfig{StorageCapacityMB: capMB, NodeId: node, NetworkName: "verif"}
+	st, err := spebble.NewStorage(cfg, db)
+	if err != nil {
+		panic(err)
+	}
+	o.Case(fmt.Sprintf("open cap=%d node=%s", capMB*1000_000, hex.EncodeToString(node[:])), "ok "+observe(db).snap(st))
+	put := func(id []byte, n, seed int, watch bool) {
+		var before storeObs
+		if watch {
+			before = observe(db)
+		}
+		err := st.Put(nil, id, genBytes(n, seed))
+		res := "ok"
+		if errors.Is(err, storage.ErrInsufficientRadius) {
+			res = "insufficient_radius"
+		} else if err != nil {
+			res = "err"
+		}
+		after := observe(db)
+		dropped, minDropped := 0, "-"
+		if res == "ok" && watch {
+			before.keys[string(xorKey(id, node[:]))] = true
+			var dk []string
+			for k := range before.keys {
+				if !after.keys[k] {
+					dk = append(dk, k)
+				}
+			}
+			sort.Strings(dk)
+			dropped = len(dk)
+			if dropped > 0 {
+				minDropped = hex.EncodeToString([]byte(dk[0]))
+			}
+		}
+		o.Case(fmt.Sprintf("put id=%s len=%d seed=%d small=1", hex.EncodeToString(id), n, seed),
+			fmt.Sprintf("%s %s dropped=%d mindropped=%s", res, after.snap(st), dropped, minDropped))
+	}
+	// 2600 tiny items in the far half of the id space (about 95 kB in all): nothing is pruned yet
+	for i := 0; i < 2600; i++ {
+		id := make([]byte, 32)
+		r.Read(id)
+		id[0] = node[0] ^ (0x80 | id[0]&0x7f)
+		put(id, r.Intn(9), r.Intn(1000), true)
+	}
+	// near items of up to 5 % of the capacity until the store has pruned three times
+	for i := 0; i < 40; i++ {
+		id := make([]byte, 32)
+		r.Read(id)
+		id[0] = node[0] ^ (id[0] & 0x3f)
+		put(id, 20000+r.Intn(29000), r.Intn(1000), true)
+	}
+}
+
 // twoStores: two stores in one process (the portal node opens one per network). Store B receives a few small items;
 // store A is then filled until it has pruned at least once. B's radius and content must be what they were.
 func twoStores(o *Out, r *rand.Rand) {
@@ -438,6 +502,7 @@ func storeHistory(o *Out, r *rand.Rand, h, nPuts int, thorough bool) {
 	small := allSmall
 	limit := int(capB/20) - 32
 	var ids [][]byte
+	var nearest []byte // the last id put right next to the node id
 	var rets []retained
 	for i := 0; i < nPuts; i++ {
 		// content id
@@ -457,11 +522,17 @@ func storeHistory(o *Out, r *rand.Rand, h, nPuts int, thorough bool) {
 			}
 		case c == 4: // tiny distance in one byte order, huge in the other
 			id = append([]byte{}, node[:]...)
-			if r.Intn(2) == 0 {
+			switch r.Intn(4) {
+			case 0:
 				id[31] ^= byte(1 + r.Intn(255))
-			} else {
+			case 1:
 				id[0] ^= byte(1 + r.Intn(255))
+			case 2:
+				id[31] ^= 1 // the nearest id there is: its storage key is 00..01, next to the reserved counter key 00..00
+			default:
+				id[0] ^= 1
 			}
+			nearest = id
 		default:
 			id = make([]byte, 32)
 			r.Read(id)
@@ -531,6 +602,9 @@ func storeHistory(o *Out, r *rand.Rand, h, nPuts int, thorough bool) {
 		// gets
 		if r.Intn(3) == 0 && len(ids) > 0 {
 			gid := ids[r.Intn(len(ids))]
+			if nearest != nil && r.Intn(4) == 0 {
+				gid = nearest
+			}
 			if r.Intn(6) == 0 {
 				gid = append([]byte{}, gid...)
 				gid[r.Intn(32)] ^= 1 << uint(r.Intn(8))
